@@ -104,6 +104,12 @@ func (db *DB) init(reset bool) error {
 		return nil
 	}
 
+	return db.initWritable(reset)
+}
+
+// initWritable is the part of init that needs the database opened for
+// writing; it does not look at the recorded mode.
+func (db *DB) initWritable(reset bool) error {
 	mStaticBuckets := map[string]struct{}{
 		string(shardInfoBucket): {},
 	}
